@@ -208,6 +208,19 @@ class Parser:
                 else:
                     buf.back(self.expand_macro(buf, tok, False))
                 continue
+            elif type(tok) is defs.VerbatimToken:
+                # NB: has to be tested before all comparisons of tok.txt below:
+                # verbatim text like '$' or '{' is not LaTeX markup
+                if tok.environ:
+                    # for Environ() entry in Parameters.environment_defs
+                    buf.next()
+                    buf.back(self.expand_verb_env_token(tok))
+                    continue
+                else:
+                    out.append(defs.ActionToken(tok.pos))
+                    # NB: \verb from a macro body is fixed to the call position
+                    out.append(defs.TextToken(tok.pos, tok.txt,
+                                                pos_fix=tok.pos_fix))
             elif tok.txt == '$' or tok.txt == '\\(':
                 out += self.mathparser.expand_inline_math(buf, tok)
                 continue
@@ -238,17 +251,6 @@ class Parser:
                 out.append(defs.ActionToken(tok.pos))
                 txt = self.parms.special_tokens[tok.txt]
                 out.append(defs.TextToken(tok.pos, txt))
-            elif type(tok) is defs.VerbatimToken:
-                if tok.environ:
-                    # for Environ() entry in Parameters.environment_defs
-                    buf.next()
-                    buf.back(self.expand_verb_env_token(tok))
-                    continue
-                else:
-                    out.append(defs.ActionToken(tok.pos))
-                    # NB: \verb from a macro body is fixed to the call position
-                    out.append(defs.TextToken(tok.pos, tok.txt,
-                                                pos_fix=tok.pos_fix))
             elif type(tok) is defs.LanguageToken:
                 if self.parms.multi_language:
                     self.parms.change_parser_lang(tok)
